@@ -92,4 +92,9 @@ try:
     PARTS += pm_parts.parts("C17")
 except ImportError:
     pass
+try:
+    from . import mph_parts
+    PARTS += mph_parts.parts()
+except ImportError:
+    pass
 _compose.assemble(globals(), PARTS, RULE, EXPLANATION, ASSUMPTIONS)
